@@ -48,7 +48,7 @@ pub struct Program {
 }
 
 fn gen_env(src: &mut Src) -> Envelope {
-    let subject: Envelope = match src.below(8) {
+    let subject: Envelope = match src.below(9) {
         0 => Envelope::new(POOL[src.below(POOL.len())]),
         1 => Envelope::new(KnownValue::new(*src.pick(&[1u64, 2, 3, 50, 100, 9999]))),
         2 => Envelope::new(dcbor::Date::from_timestamp(1_600_000_000.0 + src.below(1000) as f64)),
@@ -60,6 +60,11 @@ fn gen_env(src: &mut Src) -> Envelope {
         4 => Request::new(Function::from(1u64), bc_components::ARID::from_data([src.byte(); 32])).into(),
         5 => Response::new_success(bc_components::ARID::from_data([src.byte(); 32])).with_result("done").into(),
         6 => Envelope::new(bc_components::Digest::from_image([src.byte()])),
+        7 if src.chance(96) => {
+            // "poison pill": a decodable leaf on which dcbor's date summarizer panics (known finding K6).
+            // The call that formats it may panic; no OTHER call may be affected (no poisoned lock).
+            Envelope::new(CBOR::to_tagged_value(1u64, 1.0e300))
+        }
         _ => Envelope::new(CBOR::to_tagged_value(*src.pick(&[100u64, 40001, 40300, 32]), "tagged")),
     };
     let mut e = subject;
@@ -175,13 +180,16 @@ pub fn child_main(mode: &str, hex_program: &str) -> i32 {
                 let r = std::panic::catch_unwind(|| run_step(&prog.envs[s.env], s));
                 match r {
                     Ok(t) => println!("R {} {} {}", ti, si, hex::encode(t)),
-                    Err(_) => println!("P {} {} panic-in-solo-run", ti, si),
+                    Err(p) => {
+                        let msg = p.downcast_ref::<String>().cloned().or_else(|| p.downcast_ref::<&str>().map(|s| s.to_string())).unwrap_or_default();
+                        println!("P {} {} {}", ti, si, hex::encode(msg));
+                    }
                 }
             };
             for pass in 0..3 {
                 if pass == 2 {
                     // make sure the format context is initialised (S1) before the second tag-name pass
-                    let _ = Envelope::new("init").format();
+                    let _ = std::panic::catch_unwind(|| Envelope::new("init").format());
                 }
                 for (ti, steps) in prog.threads.iter().enumerate() {
                     for (si, s) in steps.iter().enumerate() {
@@ -279,19 +287,23 @@ fn run_child(mode: &str, hex_program: &str) -> ChildResult {
     let pid = child.id();
     let t0 = Instant::now();
     let watchdog = Duration::from_secs(20);
+    // drain the child's stdout concurrently: a child that fills the pipe would otherwise block in
+    // write() and look like a deadlock
+    let mut so = child.stdout.take().expect("piped stdout");
+    let reader = std::thread::spawn(move || {
+        let mut out = String::new();
+        let _ = so.read_to_string(&mut out);
+        out
+    });
     loop {
         match child.try_wait() {
             Ok(Some(status)) => {
-                let mut out = String::new();
-                if let Some(mut so) = child.stdout.take() {
-                    let _ = so.read_to_string(&mut out);
-                }
+                let out = reader.join().unwrap_or_default();
+                let mut lines: Vec<String> = out.lines().map(|s| s.to_string()).collect();
                 if !status.success() {
-                    let mut lines: Vec<String> = out.lines().map(|s| s.to_string()).collect();
                     lines.push(format!("X abnormal-exit {:?}", status.code()));
-                    return ChildResult::Done(lines);
                 }
-                return ChildResult::Done(out.lines().map(|s| s.to_string()).collect());
+                return ChildResult::Done(lines);
             }
             Ok(None) => {
                 if t0.elapsed() > watchdog {
@@ -300,6 +312,7 @@ fn run_child(mode: &str, hex_program: &str) -> ChildResult {
                     let b = sample_threads(pid);
                     let _ = child.kill();
                     let _ = child.wait();
+                    let _ = reader.join();
                     return match (a, b) {
                         (Some(a), Some(b)) if a.len() == b.len() && a.iter().zip(b.iter()).all(|(x, y)| (x.0 == "S" || x.0 == "D") && x.0 == y.0 && x.1 == y.1) => ChildResult::Deadlock,
                         _ => ChildResult::Inconclusive("child did not finish within 20 s but its threads are not all asleep (overloaded machine?)".into()),
@@ -388,6 +401,19 @@ pub fn run(data: &[u8], ctx: &mut Ctx) -> Outcome {
     for ((t, s), results) in &got {
         let step = &prog.threads[*t][*s];
         let (tag, text) = &results[0];
+        // "panics alone" = panics in both solo runs with a message of its own (a PoisonError is never a
+        // call's own panic: a fresh process has no poisoned lock unless an earlier call left one behind)
+        let own_panic = |r: &BTreeMap<(usize, usize), Vec<(char, String)>>| r.get(&(*t, *s)).map(|v| v.iter().any(|x| x.0 == 'P' && !x.1.contains("PoisonError"))).unwrap_or(false);
+        let solo_panics = own_panic(&refs[0]) && own_panic(&refs[1]);
+        if *tag == 'P' && solo_panics && !text.contains("PoisonError") {
+            // the call panics when run alone as well (dependency defect K6): not a concurrency matter
+            ctx.class("call-that-panics-alone");
+            continue;
+        }
+        if solo_panics {
+            // alone it panics, here it returned: nothing to compare with
+            continue;
+        }
         if *tag == 'P' {
             let key = if text.contains("PoisonError") { "C20/poisoned-lock" } else { "C20/panic" };
             return fail(ctx, "panic", key, format!("{} in thread {} panicked under concurrency: {}", OPS[step.op], t, text));
@@ -455,6 +481,8 @@ pub fn part_b_main(cases: u64, seed: u64) -> i32 {
     use proptest::prelude::*;
     use proptest::test_runner::{Config, RngAlgorithm, TestRng, TestRunner};
     bc_envelope::register_tags();
+    std::panic::set_hook(Box::new(|_| {}));
+    let skipped_k6 = std::cell::Cell::new(0u64);
     let mut config = Config::default();
     config.cases = cases as u32;
     config.failure_persistence = None;
@@ -470,7 +498,15 @@ pub fn part_b_main(cases: u64, seed: u64) -> i32 {
         let mut cfg = crate::gen::GenCfg::new(4, 30);
         let spec = crate::gen::gen_spec(&mut src, &mut cfg);
         let e = crate::bridge::build_a(&spec, &mut src);
-        let expect = (e.digest().into_owned(), e.to_cbor_data(), e.structural_digest(), e.elements_count(), e.format(), e.tree_format(false));
+        // an envelope on which formatting panics when run alone (dependency defect K6: out-of-range
+        // #6.1 leaf) has no solo reference to agree with: skipped and counted
+        let expect = match std::panic::catch_unwind(std::panic::AssertUnwindSafe(|| (e.digest().into_owned(), e.to_cbor_data(), e.structural_digest(), e.elements_count(), e.format(), e.tree_format(false)))) {
+            Ok(x) => x,
+            Err(_) => {
+                skipped_k6.set(skipped_k6.get() + 1);
+                return Ok(());
+            }
+        };
         let shared = Arc::new(e);
         let barrier = Arc::new(Barrier::new(n_threads));
         let mut hs = Vec::new();
@@ -506,7 +542,7 @@ pub fn part_b_main(cases: u64, seed: u64) -> i32 {
     });
     match r {
         Ok(()) => {
-            println!("part B: {} shared-envelope cases, {} distinct with >=3 threads, all threads agree", cases, nontrivial.borrow().len());
+            println!("part B: {} shared-envelope cases ({} skipped: formatting panics alone, K6), {} distinct with >=3 threads, all threads agree", cases, skipped_k6.get(), nontrivial.borrow().len());
             0
         }
         Err(proptest::test_runner::TestError::Fail(reason, data)) => {
